@@ -36,6 +36,21 @@ class StatsRun:
         # notices are themselves messages handled for forwarding
         self.notw = ch.choose("cfg.notw", [(0, 1), (0, 1), (1, 3), (1, 6)])
         self.res.config["notw"] = list(self.notw)
+        if ch.flag("cfg.previous_life", 1, 6):
+            # an earlier manager in the same process handled traffic it never got to report
+            w0 = World(ch, timecode=timecode, log_level=lvl, send_msg_timing=self.timing_on, max_rounds=20000)
+            w0.patch()
+            try:
+                w0.start_manager()
+                x = Actor(w0, "earlier")
+                x.open()
+                x.handshake("v2v1", req_id=10, pid=1)
+                for i in range(5):
+                    x.send(5 if i % 2 else 77, b"", tagged=False)
+                w0.quiesce()
+            finally:
+                w0.teardown()
+            self.res.probes["previous_manager_in_process"] += 1
         self.w = World(ch, timecode=timecode, log_level=lvl, send_msg_timing=self.timing_on, p_notwritable=self.notw,
                        max_rounds=600000)
         w = self.w
